@@ -86,6 +86,17 @@ def run_once(W, cfg, S, like, boost, before, blobs):
     counts = [0] * n
     j = 0
     okorder = True
+    if not W.symbolic:
+        # rows are matched by value here: a model in which two stored
+        # samples coincide cannot be attributed row by row
+        for a in range(n):
+            for b in range(a + 1, n):
+                if row_same(W, pts0[a], ll0[a], None if bl0 is None else
+                            bl0[a], pts0[b], ll0[b],
+                            None if bl0 is None else bl0[b]):
+                    raise world.ReplayMismatch(
+                        'stored samples %d and %d coincide in this model'
+                        % (a, b))
     for k in range(n):
         while j < m and row_same(W, pts[j], ll[j], None if bl is None else
                                  bl[j], pts0[k], ll0[k],
